@@ -59,7 +59,7 @@ CFG = {
         props=["C06"],
         quick=320,
         thorough=12000,
-        features={"big_batch": True, "kf_ne_m": True},
+        features={"big_batch": True, "kf_ne_m": True, "provoke_open_findings": True},
         need=dict(decided=("C06", 500)),
         title="monotone, clean termination, no crash, exact accounting",
     ),
